@@ -49,6 +49,20 @@ theorem C18_cells_rejected_call_is_noop {sp : Space} (hsp : SpaceOK sp) {s : Sta
   simp only [run, trace, hs, he]
   exact ⟨trivial, trivial⟩
 
+/-- outputs of a history with connection edits -/
+def dtrace (sp : Space) (s : State) : List DOp → List Res
+  | [] => []
+  | o :: os => (dstep sp s o).2 :: dtrace (dstep sp s o).1.1 (dstep sp s o).1.2 os
+
+/-- The same with connection edits among the later operations (`Cell.connect` / `Cell.disconnect`): deleting the rejected
+    call changes neither the final space and state nor any later output. -/
+theorem C18_cells_rejected_call_is_noop_with_edits {sp : Space} (hsp : SpaceOK sp) {s : State} (hr : Reachable sp s)
+    (op : Op) (hp : op.placing = true) {e : Err} (he : (step sp s op).2 = .err e) (later : List DOp) :
+    drun sp s (.op op :: later) = drun sp s later ∧ dtrace sp s (.op op :: later) = .err e :: dtrace sp s later := by
+  have hs := step_reject_unchanged (reachable_inv hsp hr) op hp he
+  simp only [drun, dtrace, dstep, hs, he]
+  exact ⟨trivial, trivial⟩
+
 /-! ### non-vacuity: each rejection occurs (the S11 / S12 / S13 witnesses on the repaired semantics) -/
 
 private def g : Space := gridSpace .moore [3, 3] false (some 1)
@@ -65,6 +79,12 @@ example : (step g st (.gridMove 2 "NE" 1)).2 = .err .full := by decide
 example : (step g st (.moveRel 0 [-1, 0])).2 = .err .noCell := by decide
 example : (step g st (.gridMove 2 "up" 2)).2 = .err .full := by decide               -- destination occupied
 example : (step g st (.gridMove 2 "e" 2)).2 = .ok ∧ (step g st (.gridMove 2 "e" 2)).1.cellOf 2 = some [2, 2] := by
+  decide
+
+-- … and with a connection edit after the rejected call: the edit and the later move behave as if the call had never been made
+example : (drun g st [.op (.setCell 0 (some [1, 1])), .connect [0, 0] [2, 2] (some [5, 5]), .op (.moveRel 0 [5, 5])]).2.cellOf 0 = some [2, 2] ∧
+    (drun g st [.connect [0, 0] [2, 2] (some [5, 5]), .op (.moveRel 0 [5, 5])]).2.cellOf 0 = some [2, 2] ∧
+    dtrace g st [.op (.setCell 0 (some [1, 1])), .connect [0, 0] [2, 2] (some [5, 5]), .op (.moveRel 0 [5, 5])] = [.err .full, .ok, .ok] := by
   decide
 
 end Mesa.Cells
